@@ -12,6 +12,7 @@ import (
 	"github.com/attestantio/vouch/internal/vnd"
 	"github.com/attestantio/vouch/internal/vstub"
 	"github.com/attestantio/vouch/services/attestationaggregator"
+	"github.com/attestantio/vouch/services/beaconcommitteesubscriber"
 	e2wtypes "github.com/wealdtech/go-eth2-wallet-types/v2"
 )
 
@@ -24,14 +25,15 @@ func (h *c14Duties) AttesterDuties(_ context.Context, _ *api.AttesterDutiesOpts)
 }
 
 type c14Agg struct {
-	fail bool
-	flag map[uint64]bool // validator index -> aggregator
+	fail     bool
+	failSlot map[phase0.Slot]bool // slots whose selection signing fails
+	flag     map[uint64]bool      // validator index -> aggregator
 }
 
 func (h *c14Agg) Aggregate(_ context.Context, _ *attestationaggregator.Duty) {}
 
-func (h *c14Agg) AggregatorsAndSignatures(_ context.Context, accounts []e2wtypes.Account, _ phase0.Slot, sizes []uint64) ([]phase0.BLSSignature, []bool, error) {
-	if h.fail {
+func (h *c14Agg) AggregatorsAndSignatures(_ context.Context, accounts []e2wtypes.Account, slot phase0.Slot, sizes []uint64) ([]phase0.BLSSignature, []bool, error) {
+	if h.fail || h.failSlot[slot] {
 		return nil, nil, errors.New("mock aggregator failure")
 	}
 	sigs := make([]phase0.BLSSignature, len(accounts))
@@ -135,4 +137,60 @@ func c14Subscribe(m int) {
 		}
 	}
 	vnd.Assert(len(payload) == expected, "C14.subscribe.nothing-else")
+}
+
+
+// VerifC14_SubscribeSignFailures: three duties in three different future slots,
+// process concurrency 1..2; the slot-selection signing of any subset of the
+// slots fails. Subscribe still returns, and every slot whose signing worked is
+// subscribed and present in the returned information: a failing slot is dropped
+// on its own.
+func VerifC14_SubscribeSignFailures() {
+	ct := vstub.NewChainTime(0)
+	dp := &c14Duties{}
+	agg := &c14Agg{flag: map[uint64]bool{}, failSlot: map[phase0.Slot]bool{}}
+	sub := &c14Submitter{}
+	s := &Service{chainTimeService: ct, processConcurrency: int64(vnd.IntRange("process-concurrency", 1, 2)), attesterDutiesProvider: dp, attestationAggregator: agg, submitter: sub}
+	accounts := map[phase0.ValidatorIndex]e2wtypes.Account{}
+	const m = 3
+	var slots [m]phase0.Slot
+	var fails [m]bool
+	for i := 0; i < m; i++ {
+		slots[i] = phase0.Slot(uint64(ct.Cur) + 1 + uint64(i))
+		fails[i] = vnd.Bool("signing-fails")
+		agg.failSlot[slots[i]] = fails[i]
+		v := phase0.ValidatorIndex(10 + i)
+		accounts[v] = &vstub.Account{VIndex: uint64(v), Nm: "acc"}
+		dp.duties = append(dp.duties, &apiv1.AttesterDuty{Slot: slots[i], ValidatorIndex: v, CommitteeIndex: 1, CommitteeLength: 16, CommitteesAtSlot: 2, ValidatorCommitteeIndex: uint64(i)})
+	}
+	returned := false
+	var info map[phase0.Slot]map[phase0.CommitteeIndex]*beaconcommitteesubscriber.Subscription
+	go func() {
+		info, _ = s.Subscribe(context.Background(), phase0.Epoch(uint64(ct.Cur)/ct.SPE), accounts)
+		returned = true
+	}()
+	left := vnd.Quiesce()
+	vnd.Assert(returned && left == 0, "C14.signfail.subscribe-returns-whatever-fails")
+	if !returned {
+		return
+	}
+	var payload []*apiv1.BeaconCommitteeSubscription
+	if len(sub.calls) > 0 {
+		payload = sub.calls[0]
+	}
+	for i := 0; i < m; i++ {
+		n := 0
+		for _, p := range payload {
+			if p.Slot == slots[i] {
+				n++
+			}
+		}
+		if fails[i] {
+			vnd.Cover("C14.signfail.slot-dropped")
+			vnd.Assert(n == 0, "C14.signfail.no-subscription-without-selection-proof")
+		} else {
+			vnd.Assert(n == 1, "C14.signfail.a-failing-slot-does-not-stop-the-others")
+			vnd.Assert(info[slots[i]][1] != nil, "C14.signfail.info-for-every-subscribed-slot")
+		}
+	}
 }
